@@ -102,6 +102,20 @@ func process(j *job) {
 	}
 	on0 := decode(c0, j.doc)
 	j.viol = append(j.viol, checkDoc(c0, j.doc, on0)...)
+	defer func() {
+		// whole-document formats: violations of the generic classes are keyed by the root-cause
+		// traits of the document (wholeDocTraits), "" when it has none
+		if !streaming[j.format] {
+			tr := wholeDocTraits(j.format, j.doc)
+			for i := range j.viol {
+				if j.viol[i].sub == "" {
+					j.viol[i].sub = tr
+				} else if tr != "" && (j.viol[i].class == "capture-changes-outcome" || j.viol[i].class == "range-missing") && !strings.Contains(j.viol[i].sub, "@") {
+					j.viol[i].sub += "@" + tr
+				}
+			}
+		}
+	}()
 	j.stmts, j.verdict, j.errKind = len(on0.stmts), on0.verdict, on0.errKind
 	for _, s := range on0.stmts {
 		for _, r := range s.r {
